@@ -19,6 +19,15 @@ var (
 
 func properties() []Property {
 	return []Property{
+		{ID: "C04", Assumptions: []string{aSummaries, aModels, "math.NewIntFromString on a concrete string is computed with math/big (SetString base 0, 256-bit limit) exactly as cosmossdk.io/math does; fixed fee amounts are the decimal rendering of an arbitrary symbolic Int or one of a few non-numbers", "fee recipients are concrete strings (two valid accounts, possibly repeated, and malformed ones): bech32 decoding itself is the SDK's"},
+			Harnesses: []HarnessSpec{
+				{Name: "H_C04_fee", Profile: "bit", Quick: b("entries", 2, "rcpKinds", 3, "feeKinds", 4), Thorough: b("entries", 6, "rcpKinds", 5, "feeKinds", 4), Covers: []string{"refused", "accepted"}},
+				{Name: "H_C04_compute_amount", Profile: "bit", Covers: []string{"overflow", "non-positive", "positive"}},
+			}},
+		{ID: "C18", Assumptions: []string{aSummaries, aModels, aE1, "the passthrough payload is an all-zero byte slice whose LENGTH is symbolic in [0, maxlen] (the hook reads only len)"},
+			Harnesses: []HarnessSpec{
+				{Name: "H_C18_limit", Profile: "bit", Quick: b("updates", 2, "maxlen", 70000), Thorough: b("updates", 3, "maxlen", 5000000), Covers: []string{"over-limit", "within-limit", "params-unreadable"}},
+			}},
 		{ID: "C20", Assumptions: []string{aSummaries, "strconv.Atoi/ParseInt/ParseUint, strings.Index are executed from their SSA bodies, not summarised", "channeltypes.IsValidChannelID is summarised as the byte predicate ^channel-[0-9]{1,20}$ with value <= 2^64-1 (ibc-go v8.6.1 ParseChannelSequence)"},
 			Harnesses: []HarnessSpec{
 				{Name: "H_C20_canon_cctp", Profile: "arith", Quick: b("strlen", 12), Thorough: b("strlen", 33), Covers: []string{"accepted", "rejected"}},
